@@ -30,6 +30,34 @@ def dataEv (id : Nat) : Ev := { id, op := conn, trig := inHup, sc := dataThenEof
 def closeEv (id : Nat) : Ev := { id, op := wakeOp, trig := { rd := true, wr := false, hup := false, err := false }, sc := closeMsg }
 def allFree : Nat → OpSt := fun _ => free
 
+/-! ### the flags -/
+
+/-- **Only the five flags matter.** Whatever 32-bit event word the kernel hands over, `handler`'s four
+conditions depend only on IN, OUT, ERR, HUP and RDHUP (masks regenerated from the source); all the
+theorems below quantify over every value of the four conditions, hence over every event word. -/
+theorem C11_only_five_flags (evt : Nat) : Trig.ofEvt evt = Trig.ofEvt (evt &&& 0x201D) := by
+  have h1 : (0x201D : Nat) &&& Netpoll.Gen.handler_triggerRead = Netpoll.Gen.handler_triggerRead := by decide
+  have h2 : (0x201D : Nat) &&& Netpoll.Gen.handler_triggerWrite = Netpoll.Gen.handler_triggerWrite := by decide
+  have h3 : (0x201D : Nat) &&& Netpoll.Gen.handler_triggerHup = Netpoll.Gen.handler_triggerHup := by decide
+  have h4 : (0x201D : Nat) &&& Netpoll.Gen.handler_triggerError = Netpoll.Gen.handler_triggerError := by decide
+  simp only [Trig.ofEvt, Nat.and_assoc, h1, h2, h3, h4]
+
+/-- IN|RDHUP with the edge-trigger bit set: read and hang-up conditions, nothing else -/
+example : Trig.ofEvt (0x1 ||| 0x2000 ||| 0x80000000) = { rd := true, wr := false, hup := true, err := false } := by decide
+
+/-- **The event array always holds the batch**, and a full batch doubles it (the `Wait` growth rule
+with the literals read off the source). -/
+theorem C11_event_array_growth (size n : Nat) (h : n ≤ size) :
+    n ≤ nextSize size n ∧ size ≤ nextSize size n ∧
+      (n = size → size < Netpoll.Gen.wait_maxSize → nextSize size n = size * 2) := by
+  unfold nextSize
+  refine ⟨?_, ?_, ?_⟩
+  · split <;> omega
+  · split <;> omega
+  · intro h1 h2; simp [h1, h2]
+
+example : nextSize 128 128 = 256 ∧ nextSize 128 127 = 128 ∧ nextSize 131072 131072 = 131072 := by decide
+
 /-! ### byte counts -/
 
 /-- **Acknowledged counts, input side.** Handling one event acknowledges through `InputAck` exactly
